@@ -149,8 +149,8 @@ func c13Generate(c *c13) {
 	// Fork: hlib seeds splitmix64 with seed*golden, so the raw streams of seeds k and k+1 are the same
 	// stream shifted by one draw (and re-synchronise); forking decorrelates the seeds.
 	g := c.r.Rng.Fork()
-	traces := c.r.N(250, 3500)
-	sweeps := c.r.N(5000, 150000)
+	traces := c.r.N(250, 2600)
+	sweeps := c.r.N(5000, 110000)
 	per := sweeps / traces
 	for i := 0; i < traces; i++ {
 		c13Trace(c, g, i)
